@@ -56,7 +56,7 @@ type kmKey struct {
 	pending  bool
 	tBefore  time.Time // before RemoveKey was called
 	tAfter   time.Time // after it returned
-	outcome  int       // 0 until cancelled, 1 fails at once, 2 succeeds at once
+	outcome  int       // 0 until cancelled, 1 fails at once, 2 succeeds at once, 3 nil routine (nothing runs)
 	started  bool      // the routine was started at least once under a context
 	failedOK bool      // the routine has certainly failed (exit callback seen)
 }
@@ -98,6 +98,10 @@ func (w *c06World) ctorCb(key string) (keyed.Routine, int) {
 	w.mu.Lock()
 	w.ctorOf[id] = key
 	w.mu.Unlock()
+	if oc == 3 {
+		w.c.Count("nil_routine_constructions", 1)
+		return nil, id
+	}
 	return func(ctx context.Context) error {
 		switch oc {
 		case 1:
@@ -181,7 +185,12 @@ func c06ModelCase(c *mon.Case, refc, withDelay bool) {
 	}
 	outSeed := r.Uint64()
 	w := newC06World(c, refc, delay, func(key string, ctor int) int {
-		return int(mon.SubSeed(outSeed, key, uint64(ctor)) % 4 % 3) // 0,1,2,0
+		// 0,1,2,0 and 3: the constructor returns a nil routine (documented: nothing is run, the key is managed all the same)
+		x := int(mon.SubSeed(outSeed, key, uint64(ctor)) % 5)
+		if x == 4 {
+			return 3
+		}
+		return x % 3
 	})
 	hasCtx := r.IntN(3) != 0
 	ctx, cancel := context.WithCancel(context.Background())
